@@ -13,6 +13,8 @@ Statements
   ["cset", name, op, E]       name op= E           (op in + - *)
   ["app", name, E]            append(name, E)
   ["mark", text]              print('text|')        -> one write event
+  ["markv", E]                print(E)              -> one write event
+  ["defblk", name, blkS]      def name = do ... end (block used as a value)
   ["markto", text, name]      print('text|', name)  -> write to output var
   ["err", V]                  error V               (V: literal value)
   ["erre", E]                 error E
@@ -177,6 +179,15 @@ def sorted_items(items):
     return sorted(items, key=vstr)
 
 
+def as_string(v):
+    """what print() writes for a value"""
+    if isinstance(v, str):
+        return v
+    if v is None:
+        return ""
+    return vstr(v)
+
+
 def lit_value(V):
     """JSON literal description -> model value"""
     if isinstance(V, bool) or V is None or isinstance(V, (int, str)):
@@ -255,6 +266,10 @@ def rS(S):
         return f"print('{esc(S[1])}|')"
     if t == "markto":
         return f"print('{esc(S[1])}|', {S[2]})"
+    if t == "markv":
+        return f"print({rE(S[1])})"
+    if t == "defblk":
+        return f"def {S[1]} = " + rS(S[2])
     if t == "err":
         return "error " + lit_src(S[1])
     if t == "erre":
@@ -401,6 +416,12 @@ class Machine:
         self.snapshots = None       # when not None: record after each effect
         self.streams = {}
         self.loads = []             # ledger of completed loads
+        self.raised = 0             # errors raised (planned or injected)
+        self.stats = {}             # reach probes
+        self.ctx = []               # 'handler' / 'finally' nesting
+
+    def stat(self, key):
+        self.stats[key] = self.stats.get(key, 0) + 1
 
     # -- effects -----------------------------------------------------------
     def effect(self):
@@ -415,6 +436,11 @@ class Machine:
     def emit(self, stream, text):
         f = self.io.hit("out.write", stream) if self.io else None
         if f is not None:
+            self.raised += 1
+            if "finally" in self.ctx:
+                self.stat("fault_in_finally")
+            if "handler" in self.ctx:
+                self.stat("fault_in_handler")
             raise Err(ERROR, "write failed")
         self.events.append((stream, text))
         self.effect()
@@ -473,11 +499,24 @@ class Machine:
             st = tgt.vars[S[2]]
             self.emit(st.name, S[1] + "|")
             return None
+        if t == "markv":
+            self.emit("stdout", as_string(self.ev(S[1], scope)))
+            return None
+        if t == "defblk":
+            v = self.block(S[2], scope)
+            if isinstance(v, Ctl):
+                raise Unspec("control value bound by def")
+            scope.vars[S[1]] = v
+            self.effect()
+            return v
         if t == "err":
+            self.raised += 1
             raise Err(lit_value(S[1]), "error stmt")
         if t == "erre":
+            self.raised += 1
             raise Err(self.ev(S[1], scope), "error stmt")
         if t in ("undef", "div0", "idx", "badcall"):
+            self.raised += 1
             raise Err(ERROR, t)
         if t == "expr":
             return self.ev(S[1], scope)
@@ -561,16 +600,37 @@ class Machine:
             except Err as e:
                 for V, handler in catches:
                     if V is None or veq(e.value, lit_value(V["v"])):
+                        if V is not None and kind_of(e.value) == "num" and \
+                                type(e.value) is not type(lit_value(V["v"])):
+                            self.stat("handler_matched_numeric")
                         # handler result becomes the value of the block
-                        result = self.run_block(handler, scope)
+                        self.ctx.append("handler")
+                        try:
+                            result = self.run_block(handler, scope)
+                        except Err:
+                            self.stat("handler_raises")
+                            raise
+                        finally:
+                            self.ctx.pop()
                         break
+                    self.stat("handler_rejected_by_value")
                 else:
                     raise
         finally:
             if fin is not None:
                 # exactly once, whatever way the block is left; a failure
                 # inside it replaces whatever was in flight
-                self.run_block(fin, scope)
+                self.ctx.append("finally")
+                try:
+                    self.run_block(fin, scope)
+                except Err:
+                    self.stat("finally_raises")
+                    raise
+                finally:
+                    self.ctx.pop()
+        if fin is not None and isinstance(result, Ctl):
+            self.stat("finally_after_" + {"brk": "break", "cont": "break",
+                                          "ret": "return"}[result.kind])
         return result
 
     def forin(self, S, scope):
@@ -584,7 +644,11 @@ class Machine:
             if not line:
                 break
             scope.vars[S[1]] = line
-            result = self.run_block(S[3], scope)
+            try:
+                result = self.run_block(S[3], scope)
+            except Err:
+                self.stat("stream_loop_body_error")
+                raise
             if isinstance(result, Ctl):
                 if result.kind == "brk":
                     return True
@@ -905,6 +969,8 @@ def walk_stmts(stmts):
             yield from walk_stmts(s[2])
             if s[3] is not None:
                 yield from walk_stmts(s[3])
+        elif t == "defblk":
+            yield from walk_stmts([s[2]])
         elif t == "blk":
             yield from walk_stmts(s[1])
             for _, h in s[2]:
